@@ -21,9 +21,15 @@
 
   Not modelled (inputs not generated): fuzzy positions (`<5`, `>9`), the "truncate to an ambiguous
   end" branch, string-valued `codon_start`.
+    antismash/common/secmet/features/prepeptide.py  (write-out / rebuild cycle)
+      Prepeptide.from_biopython (location part), unchanged tree: `build_location_from_others`
+        over [leader?, core, tail?]  (shared model `ASV.buildLocationFromOthers`, Model/LocOps.lean) → `rebuildUnrepaired`
+      _combine_sections (fix D107, fixes/D107_… owned by C10)                                      → `combineSections`
+      to_biopython → from_biopython → to_biopython                                                → `prepeptideRebuild`, `prepeptideSecondPass`
   No imports outside ASV.Model (driver-linkable).
 -/
 import ASV.Model.Loc
+import ASV.Model.LocOps
 namespace ASV.ProtDna
 open ASV
 
@@ -185,5 +191,97 @@ def ttaLocation (l : Loc) (offset : Int) : Res Loc :=
 def ttaDetectMarker (l : Loc) (offset : Int) : Res (Option Loc) :=
   (subLocationFromOffsets l offset (offset + 3)).bind fun r =>
     .ok (if containsOverlappingExons r then none else some r)
+
+/-! ### partial genes (fuzzy `<`/`>` positions) and the text form of `codon_start` -/
+
+/-- per part: (start is a `BeforePosition`, end is an `AfterPosition`) -/
+abbrev Fuzz := List (Bool × Bool)
+
+/-- `isinstance(location.end, AfterPosition)`: `location.end` is the end position object of the FIRST part
+    attaining the maximal end (Python `max`) -/
+def endIsAfter : List Part → Fuzz → Bool
+  | p :: ps, f :: fs =>
+    let rec go (best : Int) (flag : Bool) : List Part → Fuzz → Bool
+      | q :: qs, g :: gs => if q.hi > best then go q.hi g.2 qs gs else go best flag qs gs
+      | _, _ => flag
+    go p.hi f.2 ps fs
+  | _, _ => false
+
+/-- `isinstance(location.start, BeforePosition)` (first part attaining the minimal start) -/
+def startIsBefore : List Part → Fuzz → Bool
+  | p :: ps, f :: fs =>
+    let rec go (best : Int) (flag : Bool) : List Part → Fuzz → Bool
+      | q :: qs, g :: gs => if q.lo < best then go q.lo g.1 qs gs else go best flag qs gs
+      | _, _ => flag
+    go p.lo f.1 ps fs
+  | _, _ => false
+
+/-- the condition under which a protein end past the gene is truncated instead of refused -/
+def ambiguousEnd (l : Loc) (fz : Fuzz) : Bool :=
+  (!isRev l && endIsAfter l.parts fz) || (isRev l && startIsBefore l.parts fz)
+
+/-- `Feature.get_sub_location_from_protein_coordinates` including the branch for partial genes: an `end`
+    beyond the product is truncated to the product's length when the gene's 3' end is ambiguous -/
+def subLocationFuzzy (amb : Bool) (l : Loc) (s e : Int) : Res Loc :=
+  if !(decide (0 ≤ s) && decide (s ≤ l.len / 3 - 1)) then .valueError
+  else if decide (1 ≤ e) && decide (e ≤ l.len / 3) then subLocation l s e
+  else if decide (e > 0) && amb then subLocation l s (l.len / 3)
+  else .valueError
+
+/-- `int(raw_start[0]) - 1` of the text form of the qualifier: `none` = not a digit (→ SecmetInvalidInputError);
+    only ASCII digits are modelled, the empty string is not generated (IndexError) -/
+def codonStartOfText (raw : String) : Option Int :=
+  match raw.toList with
+  | c :: _ => if c.isDigit then some (c.toNat - 48 : Nat) else none
+  | [] => none
+
+/-- `frameshift_location_by_qualifier(location, raw_start: str, undo)` -/
+def frameshiftText (l : Loc) (raw : String) (undo : Bool) : Res Loc :=
+  match codonStartOfText raw with
+  | some c => frameshift l c undo
+  | none => .valueError
+
+/-! ### write-out / rebuild of a prepeptide: `to_biopython` → `Prepeptide.from_biopython` -/
+
+/-- `[leader_location]? + [core.location] + [tail_location]?` as collected by `from_biopython` -/
+def sectionList (x : Option Loc × Loc × Option Loc) : List Loc := x.1.toList ++ [x.2.1] ++ x.2.2.toList
+
+/-- unchanged tree: `build_location_from_others(locations)` (the list is never empty here) -/
+def rebuildUnrepaired (sections : List Loc) : Res Loc :=
+  match buildLocationFromOthers sections with
+  | .ok r => .ok r
+  | .error _ => .valueError
+
+/-- one iteration of `for section in sections:` of `_combine_sections` (D107): the first part of the new
+    section is merged into the last kept part when it continues it (down on −, up otherwise) -/
+def combineStep (parts : List Part) (sec : Loc) : List Part :=
+  match parts.getLast?, sec.parts with
+  | some prev, first :: rest =>
+    if prev.strand == first.strand then
+      if first.strand == .rev && decide (first.hi = prev.lo) then
+        parts.dropLast ++ [⟨first.lo, prev.hi, first.strand⟩] ++ rest
+      else if first.strand != .rev && decide (first.lo = prev.hi) then
+        parts.dropLast ++ [⟨prev.lo, first.hi, first.strand⟩] ++ rest
+      else parts ++ sec.parts
+    else parts ++ sec.parts
+  | _, _ => parts ++ sec.parts
+
+/-- `_combine_sections(sections)` (D107) -/
+def combineSections (sections : List Loc) : Res Loc :=
+  locOfNewParts (sections.foldl combineStep [])
+
+/-- location of the prepeptide rebuilt by `Prepeptide.from_biopython` from the core feature written by
+    `to_biopython` (`repaired` = the tree has fix D107) -/
+def rebuildLocation (repaired : Bool) (sections : List Loc) : Res Loc :=
+  if repaired then combineSections sections else rebuildUnrepaired sections
+
+/-- … and `cls(location, …)`: the constructor refuses exons sharing an end coordinate (`featureAt`) -/
+def prepeptideRebuild (repaired : Bool) (l : Loc) (leaderLen tailLen : Int) : Res Loc :=
+  (prepeptideSections l leaderLen tailLen).bind fun x => featureAt (rebuildLocation repaired (sectionList x))
+
+/-- the sections positioned again from the rebuilt prepeptide (`rebuilt.to_biopython()`) -/
+def prepeptideSecondPass (repaired : Bool) (l : Loc) (leaderLen tailLen : Int) :
+    Res (Option Loc × Loc × Option Loc) :=
+  (prepeptideRebuild repaired l leaderLen tailLen).bind fun l' => prepeptideSections l' leaderLen tailLen
 
 end ASV.ProtDna
